@@ -69,6 +69,21 @@ CHECKS.update({
     },
 })
 
+CHECKS.update({
+    "C10": {
+        "technique": "deterministic simulation: seeded schemas with struct tags through map/zjson/zhttp front ends over fault-free scripted readers, aborted predecessors (injected callback panics), simulator-chosen visit order deciding $first; structural invariants + path model + formatter-observed recording order",
+        "text": "Structural invariants of every returned issue map (key = Path, $root, no duplicates, $first singleton and equal to the first issue the execution formatter observed under the simulator-chosen visit order), sanitizer equivalence, and the tag-priority / path-grammar model, over random nestings, tag combinations and front ends, after predecessors some of which were aborted by injected callback panics. One open finding (F-TAGS, nested/empty-record tags) is reported as KNOWN-FINDING; everything else stays strict.",
+        "note": MODEL,
+        "design": "DESIGN.md §3 C10",
+    },
+    "C11": {
+        "technique": "deterministic simulation: catalogue cells and random formatter layers executed on fresh and on dirtied, adversarially recycled pools with global formatter swaps; per-issue field oracle using the shipped language maps as data",
+        "text": "The finite catalogue (every built-in test x type, required/not_nil/coerce, front-end decode failures) x {default, i18n en/es/unknown/no language, custom global formatter} is sampled uniformly and each cell runs on fresh pools and after a dirtying history under adversarial pool recycling; random schemas add test-level, execution-level and global formatter layers. Each issue is checked for code, type, own params, non-empty placeholder-free message, precedence and language.",
+        "note": MODEL + " The shipped language maps (i18n/en, i18n/es) are used as data to recognise which language produced a message.",
+        "design": "DESIGN.md §3 C11",
+    },
+})
+
 NOT_APPLICABLE = {
     "C03": "pure function of (schema options, input): no schedule, history, fault or shared state enters it; DESIGN.md §4",
     "C17": "builder-time semantics, a pure function of the chain of builder calls; nothing nondeterministic or faulty to simulate; DESIGN.md §4",
